@@ -99,7 +99,10 @@ def enabled(root, st):
             ops.append(["RE"])
         if st.uncommitted:
             ops.append(["CM"])
-        if not (st.node_unidx or st.edge_unidx or st.uncommitted) and st.reopens < 3:
+        # A deferred COMMIT is the documented obligation before closing ("remember to commit later"); a deferred index is a
+        # persistent, self-consistent state of the file (the un-indexed rows are simply not listed by the index-based
+        # queries, before and after), so reopening is explored there as well.
+        if not st.uncommitted and st.reopens < 3:
             ops.append(["RO"])
     else:
         if st.nn < 3:
